@@ -31,10 +31,11 @@ type c17Act struct {
 	R   int    `json:"r,omitempty"`
 	NT  bool   `json:"nt,omitempty"`
 	Cut int    `json:"cut,omitempty"` // 0 = complete; k>0 = power loss after k writes (uc16: before the single write)
+	TB  bool   `json:"tb,omitempty"`  // boot/fw: the one-shot tryboot flag (only the not-scriptable firmware looks at it)
 }
 
 type c17In struct {
-	Cfg     string   `json:"cfg"` // uc20 | uc16 | ns
+	Cfg     string   `json:"cfg"` // uc20 (grub) | ns20 (environment variables, not scriptable) | uc16 | ns
 	K0      int      `json:"k0,omitempty"`
 	B0      int      `json:"b0,omitempty"`
 	Acts    []c17Act `json:"acts,omitempty"`
@@ -166,6 +167,9 @@ func (g *c17Grub) run(env map[string]string) (kernel string, fallback bool) {
 // ---------------------------------------------------------------------------------------------- UC20 environment
 
 type c17Env struct {
+	ns      bool                           // not scriptable, kernel revisions in the bootloader environment
+	mbl     *bootloadertest.MockBootloader // always set
+	cmdline string                         // mocked /proc/cmdline (ns)
 	ebl     *bootloadertest.MockExtractedRunKernelImageBootloader
 	items   []string
 	lastME  string
@@ -206,6 +210,19 @@ func (b *c17LogBL) DisableTryKernel() error {
 	return err
 }
 
+// not scriptable configuration: plain environment variables (boot uses envRefExtractedKernelBootloaderKernelState)
+type c17LogNS struct {
+	*bootloadertest.MockNotScriptableBootloader
+	e *c17Env
+}
+
+func (b *c17LogNS) SetBootVars(v map[string]string) error {
+	b.e.pre()
+	err := b.MockNotScriptableBootloader.SetBootVars(v)
+	b.e.post()
+	return err
+}
+
 func (e *c17Env) modeenvBytes() string {
 	b, _ := os.ReadFile(dirs.SnapModeenvFileUnder(dirs.GlobalRootDir))
 	return string(b)
@@ -232,13 +249,27 @@ func (e *c17Env) snapshot() string {
 	if err != nil {
 		panic(err)
 	}
-	k, err := e.ebl.Kernel()
-	if err != nil {
-		panic(err)
-	}
-	tk, err := e.ebl.TryKernel()
-	if err != nil {
-		tk = nil
+	var k, tk snap.PlaceInfo
+	if e.ns {
+		k, err = snap.ParsePlaceInfoFromSnapFileName(e.mbl.BootVars["snap_kernel"])
+		if err != nil {
+			panic(err)
+		}
+		if v := e.mbl.BootVars["snap_try_kernel"]; v != "" {
+			tk, err = snap.ParsePlaceInfoFromSnapFileName(v)
+			if err != nil {
+				panic(err)
+			}
+		}
+	} else {
+		k, err = e.ebl.Kernel()
+		if err != nil {
+			panic(err)
+		}
+		tk, err = e.ebl.TryKernel()
+		if err != nil {
+			tk = nil
+		}
 	}
 	var ck []string
 	for _, f := range m.CurrentKernels {
@@ -251,7 +282,7 @@ func (e *c17Env) snapshot() string {
 	me := fmt.Sprintf("{| m_base := %s; m_try := %s; m_bst := %s; m_ck := %s |}",
 		c17Rev(c17RevOfFile(m.Base)), tb, c17Status(m.BaseStatus), vh.CoqList(ck))
 	return fmt.Sprintf("{| ks := %s; kl := %s; tkl := %s; me := %s |}",
-		c17Status(e.ebl.BootVars["kernel_status"]), c17Rev(k.SnapRevision().N), c17ORev(tk), me)
+		c17Status(e.mbl.BootVars["kernel_status"]), c17Rev(k.SnapRevision().N), c17ORev(tk), me)
 }
 
 func (e *c17Env) runOp(f func() error) (crashed bool, err error) {
@@ -277,13 +308,26 @@ const (
 	c17MaxRev     = 6
 )
 
-func c17Setup20(t *testing.T, k0, b0 int) *c17Env {
+func c17Setup20(t *testing.T, ns bool, k0, b0 int) *c17Env {
 	root := t.TempDir()
 	dirs.SetRootDir(root)
 	e := &c17Env{grub: c17TheGrub}
-	e.ebl = bootloadertest.Mock("mock", filepath.Join(root, "boot")).WithExtractedRunKernelImage()
-	e.ebl.SetEnabledKernel(c17Place(c17KernelName, k0))
-	bootloader.Force(&c17LogBL{MockExtractedRunKernelImageBootloader: e.ebl, e: e})
+	e.ns = ns
+	e.mbl = bootloadertest.Mock("mock", filepath.Join(root, "boot"))
+	if ns {
+		e.mbl.BootVars["kernel_status"] = ""
+		e.mbl.BootVars["snap_kernel"] = fmt.Sprintf("%s_%d.snap", c17KernelName, k0)
+		e.mbl.BootVars["snap_try_kernel"] = ""
+		bootloader.Force(&c17LogNS{MockNotScriptableBootloader: e.mbl.WithNotScriptable(), e: e})
+		e.cmdline = filepath.Join(root, "cmdline")
+		if err := os.WriteFile(e.cmdline, []byte("snapd_recovery_mode=run"), 0644); err != nil {
+			t.Fatal(err)
+		}
+	} else {
+		e.ebl = e.mbl.WithExtractedRunKernelImage()
+		e.ebl.SetEnabledKernel(c17Place(c17KernelName, k0))
+		bootloader.Force(&c17LogBL{MockExtractedRunKernelImageBootloader: e.ebl, e: e})
+	}
 	e.dev = boottest.MockUC20Device("run", nil)
 	m := &boot.Modeenv{Mode: "run", Base: fmt.Sprintf("%s_%d.snap", c17BaseName, b0),
 		CurrentKernels: []string{fmt.Sprintf("%s_%d.snap", c17KernelName, k0)},
@@ -330,7 +374,11 @@ func c17Has(l []int, r int) bool {
 }
 
 func c17Exec20(t *testing.T, in c17In) vh.Out {
-	e := c17Setup20(t, in.K0, in.B0)
+	ns := in.Cfg == "ns20"
+	e := c17Setup20(t, ns, in.K0, in.B0)
+	if ns {
+		defer kcmdline.MockProcCmdline(e.cmdline)()
+	}
 	defer bootloader.Force(nil)
 	defer dirs.SetRootDir("")
 	restore := boot.MockInitramfsReboot(func() error { e.reboots++; return errC17Reboot })
@@ -390,15 +438,15 @@ func c17Exec20(t *testing.T, in c17In) vh.Out {
 			}
 			tags["mark"] = true
 		case "fw":
-			acts = append(acts, "AFw")
+			acts = append(acts, "AFw "+vh.CoqBool(a.TB))
 			running = false
-			e.firmware()
+			e.firmware(a.TB)
 		case "boot":
-			acts = append(acts, "ABoot")
+			acts = append(acts, "ABoot "+vh.CoqBool(a.TB))
 			running = false
 			nboots++
 			for round := 0; round < 3; round++ {
-				img, ok := e.firmware()
+				img, ok := e.firmware(a.TB && round == 0)
 				if !ok {
 					if img == "reboot" {
 						continue
@@ -427,17 +475,24 @@ func c17Exec20(t *testing.T, in c17In) vh.Out {
 			ncuts++
 		}
 	}
-	coq := fmt.Sprintf("(Case20 %s %s %s %s)", c17Rev(in.K0), c17Rev(in.B0), vh.CoqList(acts), vh.CoqList(c17Dedup(e.items)))
+	cf := "Grub"
+	if ns {
+		cf = "EnvNS"
+	}
+	coq := fmt.Sprintf("(Case20 %s %s %s %s %s)", cf, c17Rev(in.K0), c17Rev(in.B0), vh.CoqList(acts), vh.CoqList(c17Dedup(e.items)))
 	var tl []string
 	for k := range tags {
 		tl = append(tl, k)
 	}
-	tl = append(tl, "uc20")
+	tl = append(tl, in.Cfg)
 	return vh.Out{Observed: e.items, Coq: coq, NonTrivial: nboots > 0 && (ncuts > 0 || tags["trial-boot"]), Tags: tl}
 }
 
 // firmware: grub.cfg. ok=false with img "reboot" (fallback entry) or "stuck"
-func (e *c17Env) firmware() (img string, ok bool) {
+func (e *c17Env) firmware(tb bool) (img string, ok bool) {
+	if e.ns {
+		return e.firmwareNS(tb)
+	}
 	kernel, fallback := e.grub.run(e.ebl.BootVars)
 	e.items = append(e.items, "OS "+e.snapshot())
 	var p snap.PlaceInfo
@@ -456,6 +511,32 @@ func (e *c17Env) firmware() (img string, ok bool) {
 		return "stuck", false
 	}
 	return p.Filename(), true
+}
+
+// firmware that cannot run scripts (Raspberry Pi; not in the repository, modelled): with the tryboot flag and
+// kernel_status=try it starts snap_try_kernel with kernel_status=trying on the command line (falling back to a normal
+// boot if there is none), otherwise snap_kernel. Then the first thing the initramfs does, for real:
+// boot.InitramfsRunModeUpdateBootloaderVars -> updateNotScriptableBootloaderStatus.
+func (e *c17Env) firmwareNS(tb bool) (img string, ok bool) {
+	cl := "snapd_recovery_mode=run"
+	if tb && e.mbl.BootVars["kernel_status"] == "try" {
+		img = e.mbl.BootVars["snap_try_kernel"]
+		if img == "" {
+			e.items = append(e.items, "OS "+e.snapshot(), "OReboot")
+			return "reboot", false
+		}
+		cl += " kernel_status=trying"
+	} else {
+		img = e.mbl.BootVars["snap_kernel"]
+	}
+	if err := os.WriteFile(e.cmdline, []byte(cl), 0644); err != nil {
+		panic(err)
+	}
+	if err := boot.InitramfsRunModeUpdateBootloaderVars(); err != nil {
+		e.items = append(e.items, "OErr")
+	}
+	e.items = append(e.items, "OS "+e.snapshot())
+	return img, true
 }
 
 // initramfs: the real selection functions, in snap-bootstrap's order (base, gadget, kernel)
@@ -687,7 +768,8 @@ func c17Ops20() []c17Act {
 
 func c17Gen(r *vh.Rand, tier string, n int) []c17In {
 	var ins []c17In
-	B, M := c17Act{K: "boot"}, c17Act{K: "mark"}
+	// B: orderly reboot (tryboot flag passed on; grub ignores it), Bp: boot after a power loss
+	B, Bp, M := c17Act{K: "boot", TB: true}, c17Act{K: "boot"}, c17Act{K: "mark"}
 	sk := func(r int) c17Act { return c17Act{K: "setk", R: r} }
 	sb := func(r int) c17Act { return c17Act{K: "setb", R: r} }
 	// systematic: every operation cut at every write, in a set of protocol contexts, followed by boots and marks
@@ -701,7 +783,7 @@ func c17Gen(r *vh.Rand, tier string, n int) []c17In {
 		{sk(2), sb(2), B},
 		{sk(2), B, B},
 		{sk(2), B, sk(3)},
-		{sk(2), {K: "fw"}, B},
+		{sk(2), {K: "fw", TB: true}, B},
 		{sk(2), B, M, sk(3), B},
 	}
 	tails := [][]c17Act{{B, M, B}}
@@ -715,7 +797,15 @@ func c17Gen(r *vh.Rand, tier string, n int) []c17In {
 					o := op
 					o.Cut = cut
 					acts := append(append(append([]c17Act{}, ctx...), o), tail...)
+					if cut > 0 {
+						acts[len(ctx)+1] = Bp
+					}
 					ins = append(ins, c17In{Cfg: "uc20", K0: 1, B0: 1, Acts: acts})
+					// the same history on the not-scriptable configuration (kernel operations and mark; the base is
+					// handled by the same modeenv code)
+					if op.K != "setb" && cut <= 3 {
+						ins = append(ins, c17In{Cfg: "ns20", K0: 1, B0: 1, Acts: acts})
+					}
 				}
 			}
 		}
@@ -756,7 +846,16 @@ func c17Gen(r *vh.Rand, tier string, n int) []c17In {
 				}
 			}
 		}
-		ins = append(ins, c17In{Cfg: "uc20", K0: r.Range(1, 2), B0: 1, Acts: acts})
+		for j := range acts {
+			if acts[j].K == "boot" || acts[j].K == "fw" {
+				acts[j].TB = r.Chance(2, 3)
+			}
+		}
+		cfg := "uc20"
+		if i%3 == 2 {
+			cfg = "ns20"
+		}
+		ins = append(ins, c17In{Cfg: cfg, K0: r.Range(1, 2), B0: 1, Acts: acts})
 	}
 	// UC16: all histories of length <= 3 over a small alphabet, each followed by boot, mark, boot; plus random ones
 	var alpha []c17Act
@@ -821,7 +920,7 @@ func TestVerifC17(t *testing.T) {
 	c17TheGrub = c17LoadGrub()
 	vh.Run(c17Gen, func(in c17In) vh.Out {
 		switch in.Cfg {
-		case "uc20":
+		case "uc20", "ns20":
 			return c17Exec20(t, in)
 		case "uc16":
 			return c17Exec16(t, in)
